@@ -40,6 +40,13 @@ func lookupNode[T any](urlTree *URLTree[T], url string) lookupNodeResult[T] {
 			wildcardURLPath = urlPath + getDelimiter(
 				urlPartOf(foundWildcardNode)) + wildcard
 			wildcardParams = copyParams(params)
+			if urlPart.Value == wildcard {
+				// the URL looked up is itself the declared wildcard pattern: its node is the
+				// wildcard child, not whatever a path parameter sibling would match "*" to
+				currentNode = foundWildcardNode
+				urlPath = wildcardURLPath
+				continue
+			}
 		}
 		child, found := currentNode.ConstantChildren[urlPart.Value]
 		if found && child.IsPartOfHost == urlPart.IsPartOfHost {
